@@ -618,7 +618,7 @@ def strategy(draw):
         case["colors"] = draw(st.sampled_from(
             [None, None, True, True, ["red", "blue", "green"]]))
         case["colormap"] = draw(st.sampled_from(
-            [None, "viridis", "plasma", "coolwarm"]))
+            [None, "viridis", "plasma", "coolwarm", "tab10", "Set1"]))
         case["colormap_reverse"] = draw(st.sampled_from([None, True]))
         if case["ztype"] != "str":
             case["colormap_log"] = draw(st.sampled_from([None, None, True]))
